@@ -5,7 +5,7 @@ from harness import common
 from harness.impl import c04 as I
 
 RATES = ('ir', 'tr', 'ar', 'kr')
-VALS = [0, 1, 2, 3, 0.5, 0.25, 4, 5, 7, 10, 0.125, 100, 440, -1, -0.5]
+VALS = [0, 1, 1, 2, 3, 0.5, 0.25, 4, 5, 7, 10, 0.125, 100, 440, -1, -0.5]
 LAGS = [0.5, 0.25, 1, 2, 0.125, 0, 0]
 GROUP = {'ir': ('Control', 0), 'tr': ('TrigControl', 1), 'ar': ('AudioControl', 2)}
 
@@ -98,6 +98,15 @@ class Check(common.Check):
                 k = rng.choice([1, 2, 2, 3, 4, rng.randint(5, 20)])
                 d = ['t', [rng.choice(VALS) for _ in range(k)]]
             q = {'n': nm, 'ann': ann, 'd': d}
+            if d[0] == 's' and rng.random() < 0.2:
+                # same value written as a bool or as an instance of an int/float subclass: slot = float(default)
+                v = d[1]
+                if v in (0, 1) and rng.random() < 0.6:
+                    q['dsrc'] = 'True' if v == 1 else 'False'
+                elif v == int(v):
+                    q['dsrc'] = f'MyInt({int(v)})'
+                else:
+                    q['dsrc'] = f'MyFloat({v!r})'
             if i < nprep and rng.random() < 0.5:
                 # prepended parameters are not controls: whatever annotation they carry (a type hint, a
                 # string that is no rate name, a rate name) is ignored; the layout is a function of the
@@ -401,6 +410,9 @@ class Check(common.Check):
         if io.get('rebuild_same') is not True:
             return {'what': f"a second build from the same function and argument objects gives different bytes "
                             f"({io.get('rebuild_same')})", 'signature': 'rebuild:differs'}
+        if io.get('decorator_same') is not True:
+            return {'what': f"@synthdef(…) with the same keywords builds a different definition than "
+                            f"SynthDef(name, f, …) ({io.get('decorator_same')})", 'signature': 'decorator'}
         # 4b. prepended values reach the body unchanged
         for li, lv in enumerate(levels):
             want = [str(int(v * I.SCALE)) for v in (lv.get('prepend') or [])]
@@ -467,6 +479,8 @@ class Check(common.Check):
                 inc('specs')
             if c.get('shared_rates'):
                 inc('shared_rates_object')
+            if any(p.get('dsrc') for lv in levels for p in lv['params']):
+                inc('bool_or_subclass_default')
             inc(f"variants:{len(c.get('variants') or [])}")
             if c.get('call') is not None:
                 inc('call')
